@@ -145,6 +145,25 @@ def rope_witness(prop, failures, repo, verif, workdir, seed, log):
     return {"found": False, "inputs_tried": r["tried"], "search_s": round(time.time() - t0, 1)}
 
 
+def views_witness(prop, failures, repo, verif, workdir, seed, log):
+    """C07: random source trees (string / buffer / original leaves, ConcatSource via new and add, nested, boxed, cached, replace) - every
+    content view against the model (text, raw bytes), to_writer against buffer() also with a writer that fails after k bytes"""
+    t0 = time.time()
+    try:
+        binary = twin.build(repo, verif, workdir, log)
+    except Exception as e:
+        return {"found": False, "error": str(e)[:600]}
+    r = twin.run(binary, ["search-views", seed + 1, 4000], timeout=280)
+    if r["found"]:
+        log(f"  witness (search-views, {r['tried']} source trees tried): {r['input']}: {r['detail']}")
+        return {"found": True, "kind": "views", "input": r["input"], "detail": r["detail"], "inputs_tried": r["tried"], "search_s": round(time.time() - t0, 1),
+                "replays_on": "real crate built from the checked tree (debug build): public API of the source types, all five content views against a (text, raw bytes) model"}
+    log(f"  witness search: no failing source tree among {r['tried']}")
+    if any("replace_splice" in f.name for f in failures):
+        return replace_witness(prop, failures, repo, verif, workdir, seed, log)
+    return {"found": False, "inputs_tried": r["tried"], "search_s": round(time.time() - t0, 1)}
+
+
 def c19_witness(prop, failures, repo, verif, workdir, seed, log):
     if any("rope_core" in f.name or "rope_obs" in f.name or "rope_build" in f.name for f in failures):
         return rope_witness(prop, failures, repo, verif, workdir, seed, log)
@@ -185,7 +204,7 @@ def replay(prop, path, repo, verif, workdir, log):
     if not w.get("found"):
         return None
     binary = twin.build(repo, verif, workdir, log)
-    kind = {"enc": "replay-enc", "lines": "replay-lines", "dec": "replay-dec", "replace": "replay-replace", "eqhash": "replay-eqhash", "wildmap": "replay-wildmap", "tokens": "replay-tokens", "ropebounds": "replay-ropebounds", "ropedegenerate": "replay-ropedegenerate", "rope": "replay-rope"}[w["kind"]]
+    kind = {"enc": "replay-enc", "lines": "replay-lines", "dec": "replay-dec", "replace": "replay-replace", "eqhash": "replay-eqhash", "wildmap": "replay-wildmap", "tokens": "replay-tokens", "ropebounds": "replay-ropebounds", "ropedegenerate": "replay-ropedegenerate", "rope": "replay-rope", "views": "replay-views"}[w["kind"]]
     inp = w["input"]
     if w["kind"] == "dec":
         import ast
